@@ -14,7 +14,10 @@
 (*                             punctuation, 3 bytes                        *)
 (*    #  U+1F600 emoji         like the euro sign, 4 bytes                 *)
 (*    |  U+3000 ideographic sp white space, 3 bytes                        *)
-(*    \  U+0001 control char   like the euro sign, but a single byte       *)
+(*    \f U+0001 control char   like the euro sign, but a single byte (the  *)
+(*                             model symbol is the form-feed character)    *)
+(* A backslash is itself: one more ignorable punctuation character (it is  *)
+(* in the alphabet because other languages escape quotes with it).         *)
 (*                                                                         *)
 (* Everything the lexer asks about a character is a predicate below, with  *)
 (* the meaning of Rust's char methods it uses (is_whitespace,              *)
@@ -45,7 +48,7 @@ IsAsciiDigit(c) == c \in Digits
 IsNumeric(c)    == c \in Digits \cup {"@"}
 IsAsciiAlnum(c) == c \in LowerLetters \cup UpperLetters \cup Digits
 (* ASCII punctuation that the model alphabet uses as itself *)
-AsciiPunct      == {"!", "?", ";", ":", "=", ".", ",", "&", "+", "-", "*", "/", "<", ">", "\"", "(", ")", "_", "'", "[", "]", "{", "}"}
+AsciiPunct      == {"!", "?", ";", ":", "=", ".", ",", "&", "+", "-", "*", "/", "<", ">", "\"", "(", ")", "_", "'", "[", "]", "{", "}", "\\"}
 IsIgnorablePunct(c) == c \in AsciiPunct \ {"_", "'"}
 IsWordChar(c)   == ~(IsWhitespace(c) \/ IsIgnorablePunct(c))      \* what `is_word` accepts
 
